@@ -36,10 +36,37 @@ SINGLE_STORE_EXEMPT = {
 }
 
 
+LOCK_NAMES = set()      # attribute / global names bound to threading.Lock() / RLock() in the repository
+LOCK_CTORS = ('threading.Lock', 'threading.RLock', 'Lock', 'RLock')
+
+
+def discover_locks(idx):
+  """Names that hold a lock: `self.X = threading.Lock()` (attribute X) and
+  module-level `X = threading.Lock()`; discovered from the code on every run,
+  so a lock is recognised by what it is, not by how it is called."""
+  LOCK_NAMES.clear()
+  for m in idx.modules.values():
+    for n in ast.walk(m.tree):
+      if isinstance(n, ast.Assign) and isinstance(n.value, ast.Call) and (A.call_name(n.value) or '') in LOCK_CTORS:
+        for t in n.targets:
+          d = A.dotted(t)
+          if d:
+            LOCK_NAMES.add(d.split('.')[-1])
+  if not LOCK_NAMES:
+    raise AnalysisError('no threading.Lock() found in the repository')
+
+
+def _lock_expr(e):
+  d = A.dotted(e)
+  if d and d.split('.')[-1] in LOCK_NAMES:
+    return d
+  return None
+
+
 def _is_lock_with(w):
   for it in w.items:
-    d = A.dotted(it.context_expr)
-    if d and d.endswith('._lock'):
+    d = _lock_expr(it.context_expr)
+    if d:
       return d
   return None
 
@@ -54,9 +81,24 @@ def _in_lock(node):
       continue
     for st in t.finalbody:
       for c in A.calls_in(st):
-        d = A.call_name(c) or ''
-        if d.endswith('._lock.release') or d.endswith('lock.release'):
+        if isinstance(c.func, ast.Attribute) and c.func.attr == 'release' and _lock_expr(c.func.value):
           return t
+  return None
+
+
+def _lock_name(node):
+  """Dotted name of the lock protecting a CFG node, or None."""
+  for w in node.withs:
+    d = _is_lock_with(w)
+    if d:
+      return d
+  for t, kind in node.trys:
+    if kind != 'body':
+      continue
+    for st in t.finalbody:
+      for c in A.calls_in(st):
+        if isinstance(c.func, ast.Attribute) and c.func.attr == 'release' and _lock_expr(c.func.value):
+          return _lock_expr(c.func.value)
   return None
 
 
@@ -101,8 +143,20 @@ def rule_a(ctx):
         for field, how in _field_writes(k):
           shared.setdefault(field, []).append((m, k, how))
     n = 0
+    # the lock of the class: the one most of its writes are under; a write
+    # under another lock object excludes nobody
+    import collections
+    cnt = collections.Counter(_lock_name(k) for sites in shared.values() for m, k, _ in sites
+                              if m.name not in SETUP_METHODS and _lock_name(k))
+    primary = cnt.most_common(1)[0][0] if cnt else None
+    # prefer the lock the class creates for itself
+    own = [A.dotted(t) for m in c.methods.values() for n in ast.walk(m.node)
+           if isinstance(n, ast.Assign) and isinstance(n.value, ast.Call) and (A.call_name(n.value) or '') in LOCK_CTORS
+           for t in n.targets if (A.dotted(t) or '').startswith('self.')]
+    if len(own) == 1:
+      primary = own[0]
     for field, sites in sorted(shared.items()):
-      if field == '_lock':
+      if field in LOCK_NAMES:
         continue
       runtime = [(m, k, how) for m, k, how in sites if m.name not in SETUP_METHODS]
       if not runtime:
@@ -117,7 +171,11 @@ def rule_a(ctx):
       for m, k, how in runtime:
         ok = bool(_in_lock(k))
         why = ''
-        if not ok:
+        if ok and _lock_name(k) != primary:
+          ok = False
+          why = (f'under a different lock ({_lock_name(k)}) than the other shared writes of this class '
+                 f'({primary}): the two do not exclude each other')
+        elif not ok:
           # private helper all of whose call sites are inside the lock
           if m.name.startswith('_') and m.name not in ('_propose', '_feedback', '_complete_trial'):
             sites_ = [(f, call) for f in c.methods.values() for call in A.calls_in(f.node)
@@ -194,11 +252,8 @@ def rule_b(ctx):
   if not tests or not stores:
     raise AnalysisError('get-or-create of the named study vanished')
   def lock_of(k):
-    for w in k.withs:
-      for it in w.items:
-        if 'lock' in A.unparse(it.context_expr).lower():
-          return id(w)
-    return None
+    w = _in_lock(k)
+    return id(w) if w is not None else None
   ok = all(lock_of(k) is not None for k in tests + stores) and len({lock_of(k) for k in tests + stores}) == 1
   ctx.ob('C16.b', f.fq + '#_in_memory_results', ok,
          'membership test and insertion of the named study are in one lock region', f.loc,
@@ -323,7 +378,7 @@ def rule_d(ctx):
   gb = C.cfg_of(bk.node)
   fb2 = [k for k in gb.nodes if k.ast is not None and any(A.call_name(c) == 'self._algorithm.feedback' for c in k.calls())]
   def locked(ks):
-    return bool(ks) and all(any('lock' in A.unparse(it.context_expr).lower() for w in k.withs for it in w.items) for k in ks)
+    return bool(ks) and all(_in_lock(k) for k in ks)
   ok = own or locked(fb) or locked(fb2)
   ctx.ob('C16.d', f.fq + '#_num_feedbacks', ok,
          '`_num_feedbacks += 1` runs under a lock on every path from Feedback.done', f.loc,
@@ -333,6 +388,8 @@ def rule_d(ctx):
 
 def run(ctx):
   ctx.consult(*FILES)
+  discover_locks(ctx.index)
+  ctx.note('locks discovered (names bound to threading.Lock/RLock): ' + ', '.join(sorted(LOCK_NAMES)))
   rule_a(ctx)
   rule_b(ctx)
   rule_c(ctx)
